@@ -46,13 +46,14 @@ struct V {
 
 fn frame(v: &V, addr: u32) -> Frame {
     match v.df {
-        4 => frames::short_ap(4, if v.base == 0 { frames::surv_bits(0, 0, 0, v.code) } else { frames::surv_bits(7, 31, 63, v.code) }, addr),
+        4 => frames::short_ap(4, b6_for(v.base, v.code), addr),
         20 => {
-            let b6 = if v.base == 0 { frames::surv_bits(0, 0, 0, v.code) } else { frames::surv_bits(7, 31, 63, v.code) };
+            let b6 = b6_for(v.base, v.code);
             let mb = match v.base {
                 0 => 0,
                 1 => 0x00FF_FFFF_FFFF_FFFF,
-                _ => frames::mb_bds20(frames::callsign_codes("ALT20")),
+                2 => frames::mb_bds20(frames::callsign_codes("ALT20")),
+                k => 1u64 << (55 - ((k as u64 - 3) * 4)),
             };
             frames::long_ap(20, b6, mb, addr)
         }
@@ -60,10 +61,24 @@ fn frame(v: &V, addr: u32) -> Frame {
             let me = match v.base {
                 0 => frames::me_airpos(v.tc, 0, 0, v.code, 0, 0, 93000, 51372),
                 1 => frames::me_airpos(v.tc, 3, 1, v.code, 1, 1, 0x1FFFF, 0x1FFFF),
-                _ => frames::me_airpos(v.tc, 1, 0, v.code, 0, 1, 0, 0),
+                2 => frames::me_airpos(v.tc, 1, 0, v.code, 0, 1, 0, 0),
+                // one of the other ME bits set: SS(2) SAF(1) | T F LAT(17) LON(17), every 3rd
+                k => {
+                    let j = (k - 3) as u64;
+                    let bit = if j < 3 { 50 - j } else { 35 - (j - 3) * 3 };
+                    frames::me_airpos(v.tc, 0, 0, v.code, 0, 0, 0, 0) | (1u64 << bit)
+                }
             };
             frames::df17(5, addr, me)
         }
+    }
+}
+
+fn b6_for(base: u32, code: u32) -> u32 {
+    match base {
+        0 => frames::surv_bits(0, 0, 0, code),
+        1 | 2 => frames::surv_bits(7, 31, 63, code),
+        k => (1u32 << (13 + (k - 3))) | code,
     }
 }
 
@@ -130,7 +145,7 @@ fn judge(ctx: &mut Ctx, cfg: &Cfg, v: &V, addr: u32, o: &Obs) {
 }
 
 fn run(ctx: &mut Ctx) {
-    let nb: u32 = if ctx.tier.thorough() { 3 } else { 2 };
+    let nb: u32 = if ctx.tier.thorough() { 15 } else { 2 };
     let mut items: Vec<V> = vec![];
     for df in [4u32, 20] {
         for base in 0..nb {
@@ -139,6 +154,9 @@ fn run(ctx: &mut Ctx) {
             }
             for (update, pre) in [(false, 0u32), (true, 0), (true, 1), (true, 2), (true, 3)] {
                 if pre > 0 && base > 0 {
+                    continue;
+                }
+                if base >= 3 && df == 4 && base > 16 {
                     continue;
                 }
                 for code in 0..8192 {
